@@ -140,16 +140,23 @@ func settle() {
 	vx.Wait()
 }
 
-var svcOps = []string{"start", "stop", "cancelParent", "relStartOK", "relStartErr", "relRunOK", "relRunErr", "relStopOK", "relStopErr", "addListener", "removeListener", "awaitRunning", "awaitTerminated", "cancelWaiter"}
+var svcOps = []string{"start", "stop", "cancelParent", "relStartOK", "relStartErr", "relRunOK", "relRunErr", "relStopOK", "relStopErr", "addListener", "removeListener", "removeListenerEarly", "awaitRunning", "awaitTerminated", "cancelWaiter"}
 
 // enabledSeq replays the sequence on the model only and tells whether every op is enabled.
 func enabledSeq(fns [3]bool, seq []string) bool {
 	m := newSvcModel(fns[0], fns[1], fns[2])
 	listeners, waiters := 0, 0
-	for _, op := range seq {
+	for i, op := range seq {
 		switch op {
 		case "addListener":
 			listeners++
+		case "removeListenerEarly":
+			// the removal follows the previous operation at once, while the callbacks that operation caused
+			// are executing or still queued: only after an operation that makes the service move
+			if listeners == 0 || i == 0 || !movesService(seq[i-1]) {
+				return false
+			}
+			listeners--
 		case "removeListener":
 			if listeners == 0 {
 				return false
@@ -171,11 +178,19 @@ func enabledSeq(fns [3]bool, seq []string) bool {
 	return true
 }
 
+func movesService(op string) bool {
+	switch op {
+	case "start", "stop", "cancelParent", "relStartOK", "relStartErr", "relRunOK", "relRunErr", "relStopOK", "relStopErr":
+		return true
+	}
+	return false
+}
+
 func nontrivialSeq(fns [3]bool, seq []string) bool {
 	m := newSvcModel(fns[0], fns[1], fns[2])
 	for _, op := range seq {
 		switch op {
-		case "addListener", "removeListener":
+		case "addListener", "removeListener", "removeListenerEarly":
 			if m.state != "New" {
 				return true
 			}
@@ -248,7 +263,7 @@ func runSequence(t *testing.T, fns [3]bool, seq []string) (failure string) {
 				l.remove = svc.AddListener(l.listener())
 				lsts = append(lsts, l)
 				active = append(active, l)
-			case "removeListener":
+			case "removeListener", "removeListenerEarly":
 				l := active[0]
 				active = active[1:]
 				l.remove()
@@ -280,9 +295,15 @@ func runSequence(t *testing.T, fns [3]bool, seq []string) (failure string) {
 				}
 			}
 			switch op {
-			case "addListener", "removeListener", "awaitRunning", "awaitTerminated", "cancelWaiter":
+			case "addListener", "removeListener", "removeListenerEarly", "awaitRunning", "awaitTerminated", "cancelWaiter":
 			default:
 				m.apply(op)
+			}
+			if si+1 < len(seq) && seq[si+1] == "removeListenerEarly" {
+				// no settling: the next operation removes a listener while the callbacks this one caused are
+				// executing (a callback takes a millisecond) or queued behind the one executing
+				vx.Wait()
+				continue
 			}
 			settle()
 
